@@ -379,6 +379,7 @@ func init() {
 			covers: []coverPlan{
 				structCover("groups", fam.Groups, rec, false, 30, 0, 2, 0),
 				wideCover("groups", fam.Groups, rec, false, 120, 0),
+				wideCover("softnest", fam.SoftNest, rec, false, 60, 0),
 				randCover("groups-rand", tweak(small, groupy), rec, 60, 500, 0),
 			},
 			traces: stdTraces("groups", tweak(medium, groupy), 0, stdOpts)})})
@@ -388,8 +389,10 @@ func init() {
 		kinds:      []string{"args.soft", "exec.extra"},
 		run: genericRun(stagePlan{
 			covers: []coverPlan{
-				structCover("groups", fam.Groups, rec, false, 30, 0, 2, 0),
-				wideCover("groups", fam.Groups, rec, false, 120, 0),
+				structCover("groups", fam.Groups, rec, false, 20, 0, 2, 0),
+				structCover("softnest", fam.SoftNest, rec, false, 30, 0, 2, 1),
+				wideCover("softnest", fam.SoftNest, rec, false, 120, 1),
+				wideCover("groups", fam.Groups, rec, false, 80, 0),
 				randCover("soft-rand", tweak(small, func(f *fam.Features) { groupy(f); f.PSoft = 0.6 }), rec, 80, 500, 0),
 			},
 			traces: stdTraces("soft", tweak(medium, func(f *fam.Features) { groupy(f); f.PSoft = 0.6 }), 0, stdOpts)})})
